@@ -427,7 +427,7 @@ theorem startAll_mem (cfg : Cfg) (w : Store) : ∀ (as : List Asg) (p : Pool) (n
     exact ⟨fun p' n' h => by simp [startAll] at h; rw [← h.1]; exact m, fun e p' n' h => by simp [startAll] at h⟩
   | cons a rest ih =>
     intro p n m
-    have m1 : MemOK { p with availC := p.availC - a.cpu, availR := p.availR - a.ram, active := p.active ++ [mkCtr w n a] } := by
+    have m1 : MemOK { p with availC := p.availC - a.cpu, availR := p.availR - a.ram, active := p.active ++ [mkCtr w n a], created := p.created + 1 } := by
       constructor
       · simp only [memSum, List.map_append, List.sum_append]
         have := m.sum; simp only [memSum] at this
